@@ -1,0 +1,111 @@
+//go:build verif
+
+// Contracts for package ardop, checked by /verif/govc. This file contains no
+// code: with the verif tag off it is not compiled at all, with it on it adds
+// only comments.
+package ardop
+
+/*@
+# ---------------------------------------------------------------------------
+# C14: CRC-16 of the ARDOP host interface (exact bit-vector semantics)
+#   register starts at 0xFFFF; per data bit, most significant first: shift left
+#   bringing in the data bit, and XOR 0x8810 if the bit shifted out was 1.
+# ---------------------------------------------------------------------------
+pred Bit(b, m) := ite((u16(b) & m) != 0, u16(1), u16(0))
+pred BitStep(s, bit) := ite((s & 32768) != 0, ((s << 1) + bit) ^ 34832, (s << 1) + bit)
+pred S1(s, b) := BitStep(s, Bit(b, 128))
+pred S2(s, b) := BitStep(S1(s, b), Bit(b, 64))
+pred S3(s, b) := BitStep(S2(s, b), Bit(b, 32))
+pred S4(s, b) := BitStep(S3(s, b), Bit(b, 16))
+pred S5(s, b) := BitStep(S4(s, b), Bit(b, 8))
+pred S6(s, b) := BitStep(S5(s, b), Bit(b, 4))
+pred S7(s, b) := BitStep(S6(s, b), Bit(b, 2))
+pred S8(s, b) := BitStep(S7(s, b), Bit(b, 1))
+
+func ardop.crc16Sum(data) (sum)
+  props C14
+  mode bv
+  ensures seed: len(data) == 0 ==> sum == 65535
+  loop 0 invariant seed: len(data) == 0 ==> sum == 65535
+  loop 1 invariant bit-steps: (mask == 128 && sum == entry(sum)) || (mask == 64 && sum == S1(entry(sum), b)) || (mask == 32 && sum == S2(entry(sum), b)) || (mask == 16 && sum == S3(entry(sum), b)) || (mask == 8 && sum == S4(entry(sum), b)) || (mask == 4 && sum == S5(entry(sum), b)) || (mask == 2 && sum == S6(entry(sum), b)) || (mask == 1 && sum == S7(entry(sum), b)) || (mask == 0 && sum == S8(entry(sum), b))
+  loop 1 decreases mask
+
+# ---------------------------------------------------------------------------
+# parseCtrlMsg: never panics; the value has the type the command promises
+# ---------------------------------------------------------------------------
+pred BoolCmd(c) := c == "CODEC" || c == "PTT" || c == "BUSY" || c == "TWOTONETEST" || c == "CWID" || c == "LISTEN" || c == "AUTOBREAK" || c == "FSKONLY"
+pred StateCmd(c) := c == "NEWSTATE" || c == "STATE"
+pred IntCmd(c) := c == "DRIVELEVEL" || c == "BUFFER" || c == "ARQTIMEOUT" || c == "FREQUENCY"
+pred StringCmd(c) := c == "FAULT" || c == "MYCALL" || c == "GRIDSQUARE" || c == "CAPTURE" || c == "PLAYBACK" || c == "VERSION" || c == "TARGET" || c == "STATUS" || c == "ARQBW"
+
+func ardop.parseCtrlMsg(str) (msg)
+  props C14
+  ensures bool-typed: BoolCmd(msg.cmd) ==> typeis(msg.value, "bool")
+  ensures state-typed: StateCmd(msg.cmd) ==> typeis(msg.value, "State")
+  ensures int-typed: IntCmd(msg.cmd) ==> typeis(msg.value, "int")
+  ensures string-typed: StringCmd(msg.cmd) ==> typeis(msg.value, "string")
+  ensures list-typed: msg.cmd == "CONNECTED" ==> typeis(msg.value, "[]string")
+
+func ardop.parseList(str, sep) (parts)
+  props C14
+
+# ---------------------------------------------------------------------------
+# host frames
+# ---------------------------------------------------------------------------
+ghost var gPayload string
+ghost var gCRC uint16
+
+func ardop.writeCtrlFrame(isTCP, w, format, params) (err)
+  props C14
+  call fmt.Sprintf requires cr-terminated: hasSuffix($0, "\r")
+  call fmt.Sprintf set gPayload := $r0
+  call fmt.Fprint requires prefix-payload: len($1) == 1 && ((isTCP && streq(unbox($1[0]), gPayload)) || (!isTCP && len(unbox($1[0])) == len(gPayload) + 2 && unbox($1[0])[0] == 'C' && unbox($1[0])[1] == ':' && streq(unbox($1[0])[2:], gPayload)))
+  call ardop.crc16Sum requires serial-only: !isTCP
+  call ardop.crc16Sum requires over-payload: streq(str($0), gPayload)
+  call ardop.crc16Sum set gCRC := $r0
+  call binary.Write requires crc-big-endian: !isTCP && unbox($2) == gCRC && typeis($1, "binary.bigEndian")
+
+func ardop.readFrameOfType(fType, reader, isTCP) (f, err)
+  props C14
+  requires reader: reader != nil
+  allocbound 65537
+  call ardop.crc16Sum requires serial-only: !isTCP
+  call ardop.crc16Sum requires whole-frame: same($0, data)
+  loop 0 invariant read: 0 <= read && read <= length && length == len(data) && 2 <= length && length <= 65537
+
+func ardop.(*tncConn).Read(conn, p) (n, err)
+  props C14
+  ensures bounds: 0 <= n && n <= len(p)
+
+# ---------------------------------------------------------------------------
+# tncConn.Write: ["D:"] ++ BE16(len) ++ data ++ [BE16(crc(BE16(len) ++ data))]
+#   at most 65535 bytes per frame, at most three transmissions of the frame,
+#   the count returned is the count that was framed.
+# ---------------------------------------------------------------------------
+ghost var gFrameBytes []byte
+ghost var gWriteCRC uint16
+ghost var gFramed int
+
+func ardop.(*broadcaster).Listen(b) (r)
+  props C14
+  trusted
+  modifies foreign
+
+func ardop.(*tncConn).Write(conn, p) (n, err)
+  props C14
+  call fmt.Fprint requires serial-prefix: !conn.isTCP && len($1) == 1 && unbox($1[0]) == "D:"
+  call fmt.Fprint assume prefix-written: buf.len == old(buf.len) + 2
+  call binary.Write#0 requires length-be16: typeis($1, "binary.bigEndian") && unbox($2) == len(p) && len(p) <= 65535
+  call binary.Write#0 assume length-written: buf.len == old(buf.len) + 2
+  call bytes.(*Buffer).Write requires payload: $1.$ref == p.$ref && $1.$off == p.$off && len($1) == len(p)
+  call bytes.(*Buffer).Write set gFramed := $r0
+  call bytes.(*Buffer).Bytes#0 set gFrameBytes := $r0
+  call ardop.crc16Sum requires serial-only: !conn.isTCP
+  call ardop.crc16Sum requires after-prefix: $0.$ref == gFrameBytes.$ref && $0.$off == gFrameBytes.$off + 2 && len($0) == len(gFrameBytes) - 2
+  call ardop.crc16Sum set gWriteCRC := $r0
+  call binary.Write#1 requires crc-be16: !conn.isTCP && typeis($1, "binary.bigEndian") && unbox($2) == gWriteCRC
+  at send requires attempts: i < 3
+  loop 0 invariant attempts: 0 <= i && i <= 3 && gFramed == min(len(p), 65535) && len(p) <= 65535
+  ensures count: err == nil ==> n == gFramed && n == min(len(p), 65535)
+
+@*/
